@@ -4,6 +4,7 @@ from __future__ import annotations
 
 from ..rules import sqlplace
 from ..rules import triviality
+from ..rules import optional as optional_rules
 from .common import new_run
 
 LEVEL = "other"
@@ -33,4 +34,5 @@ def check(model, tier):
     sqlplace.r11_3_emission(ctx)
     sqlplace.r08_3_order_by_scope(ctx, rule="R11.4")
     triviality.r05_2_noop_predicates_agree(ctx, rule="R11.5")
+    optional_rules.r_optional_truthiness(ctx, "R11.6", {"limit", "stop", "max_rows"}, ("sql/", "_operations/_slice.py"))
     return run
